@@ -1797,6 +1797,14 @@ class AbsPaths:
                 val = a      # true | x, false & x
             elif b is not None and b[0] == "const" and b[1] in bools and r["op"] in ("BitOr", "BitAnd") and (b[1] == "true") == (r["op"] == "BitOr"):
                 val = b
+            elif isinstance(ia, int) and isinstance(ib, int) and r["op"] in ("Add", "Sub", "Mul", "AddUnchecked", "SubUnchecked", "AddWithOverflow", "SubWithOverflow", "MulWithOverflow"):
+                # index / counter arithmetic on small known integers (`idx - 1`, `seen + n`)
+                base = r["op"].replace("WithOverflow", "").replace("Unchecked", "")
+                x = {"Add": ia + ib, "Sub": ia - ib, "Mul": ia * ib}[base]
+                if x >= 0:
+                    val = ("const", str(x))
+                    if r["op"].endswith("WithOverflow"):
+                        val = ("variant", "()", ((0, val), (1, ("const", "false"))))
             elif ia is not None and ib is not None:
                 res = {"Eq": ia == ib, "Ne": ia != ib, "Lt": ia < ib, "Le": ia <= ib, "Gt": ia > ib, "Ge": ia >= ib}.get(r["op"])
                 if res is not None:
